@@ -53,6 +53,12 @@ CHECKS["C04"] = (
     "Trusts the harness' child supervision (status file written before each phase, wait4 resource usage) for attributing crashes; 'has syntax or type errors' is decided by the front end's own diagnostics; plugin set = scheduler (+ audio driver on the VM context), not MIDI/sampler/GUI.",
     "DESIGN.md §3 C04",
 )
+CHECKS["C09"] = (
+    "metamorphic / differential oracle: staged program vs its hand expansion, both printed from one description (text form table x staging contexts, typed G-AST programs with staging markers, macro-stage arithmetic), compiled and run by the real compiler on VM and WASM; lifted numbers compared by bits with the reference interpreter",
+    "Every core expression form (67 text rows: literals, applications, lambdas, let patterns, letrec, if, sequencing, assignment, tuples, arrays, records, self, match, pipes, state) is placed in 17 staging contexts ($(`e), m!(args) and $(m(args)) with free locals passed as code, macro-stage let-bound code spliced 1-3 times, code through macro-stage functions / closures, numeric recursion building code) and every pair is run; random typed core programs get 1-5 nested staging markers (the above plus unrolled sums, x^n lambdas, n-fold application, lifted literals) and are printed as staged text and as expansion; blocks of 8 macro-stage arithmetic expressions (0.1+0.2, 1/3, 1e-7, 2^53+1, -0.0, inf, NaN, subnormal, MAX ...) are lifted in nine spellings. Accept/reject and every output bit of staged vs expansion must agree per back end; each lifted number must carry the bits of the macro-stage value. Because the compiler quotes the whole program when one staging construct is present, every form of the generated programs passes through the code combinators. Sampled beyond the exhaustive form x context table; nothing is modelled except macro-stage f64 arithmetic (reference interpreter).",
+    "Trusts the G-AST printer, the marker expansion (`expand`) and the reference interpreter's f64 arithmetic; VM is never compared with WASM here. Two known findings (record pattern and `match` in a program that is quoted) are replayed as witnesses and kept out of general exploration by the quarantines record-pattern-in-quote (record patterns rewritten to field accesses) and match-in-quote. Generated programs whose expansion needs more than 60 000 reference-interpreter steps for its first two samples are not run (about 1 %).",
+    "DESIGN.md §3 C09",
+)
 CHECKS["C16"] = (
     "metamorphic oracle: original vs transformed program (consistent renaming to fresh / compiler-like / case-variant names, redundant parentheses, layout and comments inside brackets, agreeing annotations) on both back ends",
     "Each generated core program is transformed at the AST level (renaming of every user identifier and record field, full annotation with the generator's own types, pseudo-random redundant parentheses) or at the text level (whitespace, comments and line breaks after ( [ , inside brackets; also applied to every shipped source); original and transformed text are compiled and run on VM and WASM with identical inputs and must agree on accept/reject and on every output bit.",
